@@ -26,8 +26,12 @@ CHECKS = {
         text="Theorems over any ordered field: counting a*x+b maps every cycle to (|a| r, a m + b) with the same count and order of "
              "extraction; inserting repeated / in-between samples leaves the counted points unchanged (inductive Refines relation, "
              "any number of insertions); counting the turning points with end points reproduces the table; find_reversals equals "
-             "reversals on plateau-free signals (partial, F8b known). Tied by Rat correspondence incl. signal.find_reversals.",
-        note=TB + "find_reversals with plateaus is covered by search only (known finding F8b).",
+             "reversals on plateau-free signals, and for EVERY signal (plateaus allowed) whose first and last extracted values are its "
+             "first and last turning point the recount from find_reversals with end points reproduces the count "
+             "(find_reversals_keeps_turning_points, find_reversals_spec_plateaus, recount_find_reversals_plateaus; the excluded shape is "
+             "exactly known finding F8b, kernel-checked). Tied by Rat correspondence incl. signal.find_reversals; the new theorem's "
+             "statement is evaluated on the implementation on exhaustive short and seeded plateau-rich signals.",
+        note=TB + "find_reversals outside the hypothesis of find_reversals_spec_plateaus (a descending plateau before the first / after the last turning point) is known finding F8b.",
         ref="4/C03"),
 }
 
